@@ -236,8 +236,13 @@ def check(prop, tier, vseed, n_runs, batch_size, workers, profile_info):
         wall_s=round(time.time() - t0, 2),
         violations=len(violations),
     )
-    os.makedirs(os.path.join(VERIF, 'evidence'), exist_ok=True)
-    evp = os.path.join(VERIF, 'evidence', f'{prop}.json')
+    # runs against another tree than /repo (mutants, seeded changes) must not
+    # overwrite the evidence of the tree under verification
+    evdir = 'evidence'
+    if os.path.abspath(os.environ.get('DD_SRC', '/repo')) != '/repo':
+        evdir = 'evidence_scratch'
+    os.makedirs(os.path.join(VERIF, evdir), exist_ok=True)
+    evp = os.path.join(VERIF, evdir, f'{prop}.json')
     try:
         with open(evp, 'w') as fd:
             json.dump(evidence, fd, indent=1, sort_keys=True)
